@@ -35,13 +35,14 @@ RULE = ("Hypothesis builds a pair model as for C01 (species labels <= 8 characte
         "the output untouched. Non-trivial = an accepted table with >= 2 potentials or curvature, or a rejected "
         "row count; distinct = distinct canonical JSON.")
 ASSUMPTIONS = [
-    "a 15-character field cannot hold |value| < 1e-99 or >= 1e99: the former may be printed as zero, models "
-    "reaching the latter are outside the domain",
-    "nr = 4 (delpot = cutoff/0) is outside the domain; accepted row counts are multiples of four >= 8",
-    "rows within a few ulp of a range boundary and numerical-fallback force rows whose stencil crosses a "
+    "rows are taken at the float the property's own row formula gives (k*delpot; i*step; i*cutoff/(nr-1)); a row that sits EXACTLY on a range boundary is compared (the marker decides its side), a row within 64 ulp of a boundary without being on it is not (nothing can be said about which side a last-bit difference puts it on)",
+    "a 15-character field cannot hold seven decimals of |value| < 1e-99 or >= 1e100: the former may be printed as "
+    "zero, the latter with six decimals (F04, F32)",
+    "nr = 4 (delpot = cutoff/0) is refused like a row count that is not a multiple of four (F38)",
+    "numerical-fallback force rows whose stencil crosses a "
     "boundary are not compared (counted)",
 ]
-REQUIRED = {"special:root_on_grid": 8, "special:decay_tail": 8, "special:growth": 4, "special:other_units": 10, "reject:four_rows": 2, "no_potentials:reject": 3, "accept": 60, "reject": 40, "reject:nr%4=2:api_class": 5, "reject:nr%4=2:writePotentials": 5,
+REQUIRED = {"special:root_on_grid": 8, "special:decay_tail": 8, "special:growth": 4, "special:break_on_row": 8, "special:other_units": 10, "reject:four_rows": 2, "no_potentials:reject": 3, "accept": 60, "reject": 40, "reject:nr%4=2:api_class": 5, "reject:nr%4=2:writePotentials": 5,
             "reject:nr%4=2:potable": 10, "route:potable:DL_POLY": 10, "route:potable:DLPOLY": 10,
             "route:api_class": 15, "route:writePotentials": 15}
 FMT = ("e", 7)
@@ -92,6 +93,20 @@ def _units(draw, name):
             "container": "list", "special": "other_units"}
 
 
+@st.composite
+def _node_case(draw):
+    """break points exactly on grid rows k*delpot"""
+    cutoff = draw(st.sampled_from([10.0, 6.5, 7.3, 12.0, 2.5]))
+    nr = 4 * draw(st.sampled_from([3, 6, 11, 26, 251]))
+    delpot = cutoff / (nr - 4.0)
+    ks = draw(st.lists(st.integers(1, nr), min_size=1, max_size=3, unique=True))
+    a, b = draw(st.sampled_from([("A", "B"), ("O", "U"), ("Xx", "Xx")]))
+    return {"env": {"custom": [], "table": []}, "species": sorted(set([a, b])), "cutoff": cutoff, "nr": nr,
+            "route": draw(st.sampled_from(["api_class", "writePotentials", "potable:DL_POLY", "potable:DLPOLY"])),
+            "pair": [[a, b, draw(gen.node_break_potdef([k * delpot for k in ks]))]], "container": "list", "special": "break_on_row",
+            "node_rows": ks}
+
+
 def strategy(tier):
     return _case(80, True)
 
@@ -100,6 +115,7 @@ def strata(tier):
     mx = 80 if tier == "quick" else 2000
     out = [("accept", _case(mx, True), 12), ("root_on_grid", _special("root_on_grid"), 2),
            ("decay_tail", _special("decay_tail"), 2), ("growth", _special("growth"), 1)]
+    out.append(("break_on_row", _node_case(), 2))
     out += [("other_units:" + f, _units(f), 0.25) for f in gen.UNIT_FORMS if f not in ("zero", "constant")]
     for route in ("api_class", "writePotentials", "potable:DL_POLY", "potable:DLPOLY"):
         out.append(("reject:even:" + route, _case(mx, False, route, 2), 1))
@@ -144,10 +160,10 @@ def verify_text(case, out, route_kind, ctx):
             continue
         numeric = pairtab.has_numeric(pd, route_kind)
         curved = False
-        for i in compare.sample_rows(nr):
+        for i in sorted(set(compare.sample_rows(nr)) | set(k_ - 1 for k_ in case.get("node_rows", []))):
             k = i + 1
             r = k * delpot
-            if not model.same_piece(ref, pd, r, 64 * 2.3e-16 * max(1.0, r) * max(1, k // 16)):
+            if not model.on_boundary(ref, pd, r) and not model.same_piece(ref, pd, r, 64 * 2.3e-16 * max(1.0, r)):
                 stats["boundary_rows_skipped"] += 1
                 continue
             j, tr = pairtab.ref_row(ref, pd, r, order=2, rerr=8.0 + k)   # r accumulated by k additions
